@@ -747,16 +747,25 @@ def dict_method(R, E, recv, name, args, kwargs, node):
     raise Unsupported("dict.%s" % name)
 
 
+class _SymJoin(Exception):
+    pass
+
+
 def str_method(R, E, recv, name, args, kwargs, node):
     if conc(recv) and all(conc(a) for a in args):
         if name in ("startswith", "endswith", "split", "join", "lower", "upper", "strip", "replace", "format",
                     "find", "rstrip", "lstrip", "isdigit", "index", "count", "rsplit", "title"):
             try:
                 if name == "join":
-                    return recv.join(E.iterate_concrete(args[0], node))
+                    items_ = E.iterate_concrete(args[0], node)
+                    if not all(isinstance(x, str) for x in items_):
+                        raise _SymJoin()
+                    return recv.join(items_)
                 return getattr(recv, name)(*args, **kwargs)
             except (ValueError, IndexError):
                 E.raise_("ValueError", node, "safety")
+            except _SymJoin:
+                pass
     s = z(recv)
     if name == "startswith":
         return z3.PrefixOf(z(args[0]), s)
